@@ -1,6 +1,7 @@
 import ParryModel.C05.Theorems1
 import ParryModel.C05.Theorems2
 import ParryModel.C05.Theorems3
+import ParryModel.C05.Theorems4
 /-!
 # C05 property theorems (umbrella file)
 
@@ -9,5 +10,7 @@ import ParryModel.C05.Theorems3
 * `Theorems2.lean` — growth: 3-D triangle, cone, 2-D capsule, Aabb/cuboid feature ids, composite glue.
 * `Theorems3.lean` — growth 2: the reported triangle location *contains* the projection (edge / face barycentric coordinates are
   non-negative, 2-D and 3-D), unconditional 2-D membership.
+* `Theorems4.lean` — fu4: oriented-TriMesh pseudo-normal sign test (face / edge / vertex), HeightField cell tiling, cell-range
+  completeness, triangle-id injectivity.
 `./mkaudit C05` collects the public `theorem`s of every `Theorems*.lean`.
 -/
